@@ -801,6 +801,70 @@ func (m *MW) StepStaleRelease() {
 	m.rc.Nontrivial = true
 }
 
+// StepMeltPollRace: state checks and quote polls land while a melt request is being processed,
+// also in the window after the quote went PENDING and before the Lightning backend knows of the
+// payment (its "not found" at that instant says nothing about the payment about to be made).
+func (m *MW) StepMeltPollRace() {
+	mint := m.pickMint()
+	purse := SumH(m.User.Purse[mint])
+	if purse < 8 {
+		m.StepFund()
+		return
+	}
+	amt := uint64(1 + m.T.Choose("mpr.amt", int(purse/4)))
+	mode := []string{"pending", "succeeded", "pending", "failed"}[m.T.Choose("mpr.mode", 4)]
+	m.rc.Op("melt+polls " + mode)
+	inv := m.W.LN.NewExternalInvoice(amt * 1000)
+	m.W.LN.Scripts[inv.Hash] = &LNScript{Pay: mode}
+	var q *MeltQuote
+	var ins []*HProof
+	m.rc.Quietly(func() {
+		q, _ = m.User.ReqMeltQuote(mint, inv.Bolt11, 0)
+		if q != nil {
+			if ins = m.TakeFor(mint, q.Amount+q.Reserve); ins != nil {
+				m.User.remove(mint, ins)
+			}
+		}
+	})
+	if q == nil || ins == nil {
+		return
+	}
+	var mr *Resp
+	m.begin()
+	m.rc.S.Go(m.name("mpr.melt"), m.W.Ext, true, func() { mr = m.User.Melt(mint, q.ID, ins) })
+	for i := 0; i < 2; i++ {
+		name := fmt.Sprintf("%s.%d", m.name("mpr.poll"), i)
+		m.rc.S.Go(name, m.W.Ext, true, func() {
+			a := NewActor(m.W, name)
+			for k := 0; k < 2; k++ {
+				if i == 0 {
+					a.CheckState(mint, []string{ins[0].Y()})
+				} else {
+					a.PollMeltQuote(mint, q.ID)
+				}
+				m.rc.S.Yield(m.W.Ext, "ext", "between-polls")
+			}
+		})
+	}
+	m.rc.S.Drive(false)
+	m.rc.S.Probe("melt_poll_race_episode")
+	if mr != nil {
+		m.afterMelt(mint, q, ins, mr)
+	}
+	m.rc.Nontrivial = true
+	// the harness knows the truth: ask right away
+	var Ys []string
+	for _, p := range ins {
+		Ys = append(Ys, p.Y())
+	}
+	m.begin()
+	m.rc.S.Run1(m.name("mpr.cs"), m.W.Ext, func() {
+		if r := m.User.CheckState(mint, Ys); r.OK() {
+			m.verifyStates(mint, Ys, r)
+		}
+	})
+}
+
 // StepCheckstate: query mixing known, unknown, repeated and malformed Ys.
 func (m *MW) StepCheckstate() {
 	mint := m.pickMint()
